@@ -86,15 +86,16 @@ json stress_plan(Rng &r, int tier, uint64_t idx)
 				 {{"n", "fn"}, {"t", "func"}, {"fn", "sim"}},
 				 {{"n", "include"}, {"t", "func"}, {"fn", "include"}}});
 	plan["schemas"] = json::array({{{"opts", opts}}});
-	int shape = (int)(idx / 16) % 14;
+	int shape = (int)(idx % 14);
 	static const long sizes_q[] = {1, 10, 100, 1000, 5000};
 	static const long sizes_t[] = {10, 1000, 10000, 100000, 1000000};
 	long n = tier ? sizes_t[r.below(5)] : sizes_q[r.below(5)];
 	int flags = 0;
 	std::string t;
 	std::string shape_name;
+	bool want_path = false;
 	json fs = json::array({{{"path", "/c02/dir"}, {"kind", "dir"}}, fs_file("/c02/empty", ""), fs_file("/c02/self.conf", "include(\"/c02/self.conf\")\n"),
-			       {{"path", "/c02/noperm"}, {"kind", "noperm"}}});
+			       {{"path", "/c02/noperm"}, {"kind", "noperm"}}, {{"path", "/c02"}, {"kind", "dir"}}, {{"path", "/"}, {"kind", "dir"}}});
 	std::string route = "buf";
 	switch (shape) {
 	case 0:
@@ -158,8 +159,10 @@ json stress_plan(Rng &r, int tier, uint64_t idx)
 		break;
 	case 9: {
 		shape_name = "special_include_target";
-		static const char *targets[] = {"/c02/dir", "/c02/empty", "/c02/self.conf", "/c02/noperm", "/c02/missing", "", "~nouser/x", "/"};
-		t = std::string("alpha = 2\ninclude(\"") + targets[r.below(8)] + "\")\nalpha = 3\n";
+		// (the account database below makes "~", "~/" and "~root" name a directory)
+		static const char *targets[] = {"/c02/dir", "/c02/empty", "/c02/self.conf", "/c02/noperm", "/c02/missing", "", "~nouser/x", "/", "~", "~/", "~root", "~root/", "~/empty", "empty", "dir", "self.conf"};
+		t = std::string("alpha = 2\ninclude(\"") + targets[r.below(16)] + "\")\nalpha = 3\n";
+		want_path = r.chance(1, 2); // relative names: through a search path whose directory is written with or without a trailing slash
 		break;
 	}
 	case 10: {
@@ -198,18 +201,23 @@ json stress_plan(Rng &r, int tier, uint64_t idx)
 		t += "alpha = 1\n";
 		break;
 	}
-	plan["world"] = {{"fs", fs}, {"env", {{"X", "1"}}}};
+	plan["world"] = {{"fs", fs}, {"env", {{"X", "1"}}}, {"passwd", json::array({{{"name", "root"}, {"uid", 0}, {"dir", "/c02"}}})}, {"euid", 0}};
 	plan["knobs"] = {{"tty", r.chance(1, 6)}, {"fill", 0xA5}};
 	json steps = json::array();
 	json init = step(0, "init", 0);
 	init["flags"] = flags;
 	steps.push_back(init);
+	if (want_path) {
+		json a = step(0, "addpath", 0);
+		a["dir"] = r.chance(1, 2) ? "/c02/" : (r.chance(1, 2) ? "/c02" : "/c02//");
+		steps.push_back(a);
+	}
 	if (route == "file") {
 		static const char *paths[] = {"/c02/dir", "/c02/empty", "/c02/missing", "/c02/noperm", "", "~", "~nouser", "/"};
 		std::string path = paths[r.below(8)];
 		if (r.chance(1, 3)) {
 			json a = step(0, "addpath", 0);
-			a["dir"] = "/c02";
+			a["dir"] = r.chance(1, 2) ? "/c02" : "/c02/";
 			steps.push_back(a);
 			if (r.chance(1, 2))
 				path = r.chance(1, 2) ? "dir" : "empty";
@@ -300,7 +308,10 @@ json damaged_plan(Rng &r, int tier)
 json generate(uint64_t seed, uint64_t idx, int tier)
 {
 	Rng r(seed);
-	json plan = (idx % 16 == 15) ? stress_plan(r, tier, idx) : damaged_plan(r, tier);
+	// one plan in 16 is a stress shape; which ones is decided by a hash of the index, so that the (slow) stress plans are
+	// spread over all worker lanes instead of landing on the one lane that serves idx = 15 mod 16
+	uint64_t h = fnv64(std::to_string(idx));
+	json plan = (h % 16 == 15) ? stress_plan(r, tier, h / 16) : damaged_plan(r, tier);
 	// recovery probe: fresh context, fixed valid text (every plan's schema may lack 'alpha': the probe's outcome is
 	// compared with the same probe in a fresh image, not predicted)
 	int pc = 7;
